@@ -105,3 +105,11 @@ func init() {
 	// C01 / C10 — the check of a same-block ("ephemeral") parent record, whole functions
 	tcodeRoots = append(tcodeRoots, "consensus.validateEphemeralSiacoinElement", "consensus.validateEphemeralSiafundElement")
 }
+
+func init() {
+	// C02 / C07 — the revision loop of validateV2FileContracts (closures validateParent and validateRevision, the
+	// `revised` bookkeeping map) as one definition
+	regionRoots = append(regionRoots,
+		regionSpec{fn: "consensus.validateV2FileContracts", name: "revisions", from: "for i, fcr := range txn.FileContractRevisions", to: "for i, fcr := range txn.FileContractResolutions"},
+	)
+}
